@@ -934,6 +934,7 @@ func (s *Stage) finalizeHandler() {
 			continue
 		}
 		if s.isFileReady(f) {
+			verifhook.Point("stage.finh.ready", f.name, s.rootDir)
 			s.finalize(f)
 		}
 		verifhook.Point("stage.done.finalize", f.name, s.rootDir)
